@@ -74,22 +74,27 @@ def dump_mir(features=DEFAULT_FEATURES, package='adf_bdd', target='--lib'):
 
 
 def build_native(features=DEFAULT_FEATURES, release=False):
-    """native replay binary against /repo/lib as it is now"""
+    """native replay binary against /repo/lib as it is now (one shared target dir, one copied binary per feature set)"""
     t = time.time()
-    key = fkey(features) + ('-rel' if release else '')
-    tdir = os.path.join(CACHE, 'target-replay-' + key) if fkey(features) != fkey(DEFAULT_FEATURES) or release else os.path.join(CACHE, 'target-replay')
+    key = fkey(f for f in features if f != 'HashSet') + ('-rel' if release else '')
+    tdir = os.path.join(CACHE, 'target-replay')
+    bindir = os.path.join(CACHE, 'bin'); os.makedirs(bindir, exist_ok=True)
+    dest = os.path.join(bindir, 'verif_replay-%s-%d' % (key, os.getpid()))
     lock_src = os.path.join(REPO, 'Cargo.lock')
-    with Lock('native-' + key):
+    with Lock('native'):
         shutil.copyfile(lock_src, os.path.join(VERIF, 'replay', 'Cargo.lock'))
         cmd = ['cargo', 'build', '--offline', '--no-default-features']
-        if features: cmd += ['--features', ','.join(f for f in features if f != 'HashSet')]
+        fl = [f for f in features if f != 'HashSet']
+        if fl: cmd += ['--features', ','.join(fl)]
         if release: cmd += ['--release']
         p = subprocess.run(cmd, cwd=os.path.join(VERIF, 'replay'), env=dict(ENV, CARGO_TARGET_DIR=tdir, RUSTFLAGS='-Awarnings'),
                            capture_output=True, text=True)
-    if p.returncode != 0:
-        sys.stderr.write(p.stderr[-4000:])
-        raise RuntimeError('native replay build failed')
-    return os.path.join(tdir, 'release' if release else 'debug', 'verif_replay'), time.time() - t
+        if p.returncode != 0:
+            sys.stderr.write(p.stderr[-4000:])
+            raise RuntimeError('native replay build failed')
+        shutil.copyfile(os.path.join(tdir, 'release' if release else 'debug', 'verif_replay'), dest)
+        os.chmod(dest, 0o755)
+    return dest, time.time() - t
 
 
 class Native:
@@ -116,3 +121,5 @@ class Native:
             try: self.p.stdin.close(); self.p.wait(timeout=5)
             except Exception: self.p.kill()
             self.p = None
+        try: os.unlink(self.path)
+        except OSError: pass
